@@ -20,6 +20,8 @@ BOUNDS = {
              "replacements that rewrite back to the unit) x 14 API entries; every one of the current symbols as a fixed point; idempotence on every derived spelling",
     "thorough": "same (the quantifier is finite and already exhausted in quick); additionally every pair of substitutions applied to every unit",
 }
+BOUNDS_ALSO = '; also: every container kind (list, tuple, ndarray, list of tuples) to and from the legacy spelling through Convert / GetValues / CreateCopy, FixedArray.IndexAsScalar / ChangingIndex; the value-less form in a legacy unit for a category with a symbolic default; what each legacy TOKEN spells out (1000ft3, M(m3), k(ft3) ...) held independently of the substitution list'
+BOUNDS = {k_: v_ + BOUNDS_ALSO for k_, v_ in BOUNDS.items()}
 ASSUMPTIONS = ["A-FP", "idempotence on ARBITRARY strings is not claimed by the property ('gmolee') and not checked", "oracle conversions from the real closures (C01)"]
 EXHAUSTIVE = {"quick": True, "thorough": True}
 CHUNK = 4
